@@ -3,7 +3,12 @@
 
   Model: BB.Read (`FS`, `lookupPath`, `readLinesAux`, `frontEnd`, `assembleText`).
   * `cwd_irrelevant`            assembling a file given by its absolute path with absolute -i
-                                directories never consults the working directory;
+                                directories never consults the working directory — TRUE BY
+                                CONSTRUCTION: the model's `.path` branch does not mention `cwd`,
+                                and relative paths / relative -i directories are `unsupported`
+                                (on both sides), so this theorem carries no information about
+                                them; harness/props/c14.py tests the real tool from several
+                                working directories;
   * `include_is_splice`         in `read_lines`, an `include F` line contributes exactly the lines
                                 `read_lines` returns for the file the search finds (-i directories in
                                 order, then the including file's directory), read relative to THAT
@@ -14,7 +19,18 @@
                                 written in place of the include line have the same contents;
   * `assemble_ignores_line_metadata`  no pass looks at file names / line numbers;
   * `include_same_result`       hence the two texts assemble to the same bytes, labels, constants
-                                (or both fail);
+                                (or both fail) — ONE include line, included file without includes;
+  * `include_tree_splice`       ANY DEPTH: for an include tree (`IncTree`, `IncTree.Valid`: every
+                                include line resolves to a readable ASCII file, whose lines are
+                                again a valid tree, relative to ITS directory; other lines are
+                                neither include nor include_bytes lines) of depth within the fuel,
+                                `read_lines` of the main text SUCCEEDS and returns exactly the
+                                non-blank lines of `t.flat` — the splice computed by structural
+                                recursion on the tree, a specification-side function that does not
+                                mention `readLinesAux`; `include_tree_reads`: such a read never
+                                ends in `unsupported` (fuel) or any other error;
+                                `include_tree_same_result`: the main text and the flat text
+                                assemble to the same result;
   * `path_same_as_source`       a file given by path assembles like its text given as a string
                                 from the file's directory;
   * `resolve_lexical`           on the symlink-free filesystem model, the file a path string with
@@ -27,7 +43,13 @@ import BB.Lemmas.ReadFront
 namespace BB.Props.C14
 open BB
 
-/-- `read_lines` on a path never consults the working directory -/
+/-- `read_lines` on a path never consults the working directory.
+    HONEST LABEL: true by construction.  The `.path` branch of the model does not mention `cwd`
+    (beyond the `normAbs cwd` guard), because it covers ABSOLUTE paths and absolute -i directories
+    only: a relative main path or a relative -i directory makes both sides `unsupported`, and the
+    equation then holds for the wrong reason (audit/front/A2_c14.lean).  What the real tool does
+    with relative paths from different working directories is tested, not proved
+    (harness/props/c14.py). -/
 theorem cwd_irrelevant (fs : FS) (cwd₁ cwd₂ : String) (dirs : List String) (c : Bool) (p : String)
     (h₁ : normAbs cwd₁ = true) (h₂ : normAbs cwd₂ = true) :
     assembleText fs cwd₁ dirs c (.path p) = assembleText fs cwd₂ dirs c (.path p) := by
@@ -159,6 +181,153 @@ theorem path_same_as_source (fs : FS) (cwd : String) (dirs : List String) (c : B
   rw [readLinesAux.eq_2, readLinesAux.eq_2]
   exact contentsOf_go fs dirs _ p "<string>" _ _ 1 1
 
+/-! ### include trees: splicing at any depth
+
+  Specification side.  An `IncTree` is a text seen as its raw lines, where every `include` line
+  carries the tree of the file it stands for.  `IncTree.lines` is the text itself, `IncTree.flat` the
+  text with every include line replaced, recursively, by the lines of the included file: plain
+  structural recursion on the tree — no filesystem, no fuel, no reference to `readLinesAux`.
+  `IncTree.Valid fs dirs base t` ties a tree to a filesystem: the include lines of a text read with
+  `base` as its directory resolve (`lookupPath`, -i directories first) to readable ASCII files whose
+  `splitlines()` are the lines of the subtree, valid relative to THAT file's directory. -/
+
+inductive IncTree where
+  | nil : IncTree
+  | line (raw : List Char) (rest : IncTree) : IncTree
+  | inc (raw : List Char) (sub : IncTree) (rest : IncTree) : IncTree
+
+/-- the raw lines of the text itself -/
+def IncTree.lines : IncTree → List (List Char)
+  | .nil => []
+  | .line raw rest => raw :: rest.lines
+  | .inc raw _ rest => raw :: rest.lines
+
+/-- **the splice** (`spliceSpec`): every include line replaced by the spliced lines of its file -/
+def IncTree.flat : IncTree → List (List Char)
+  | .nil => []
+  | .line raw rest => raw :: rest.flat
+  | .inc _ sub rest => sub.flat ++ rest.flat
+
+/-- nesting depth of includes -/
+def IncTree.depth : IncTree → Nat
+  | .nil => 0
+  | .line _ rest => rest.depth
+  | .inc _ sub rest => max (sub.depth + 1) rest.depth
+
+/-- the tree describes the text whose directory is `base`, on `fs` with -i directories `dirs` -/
+inductive IncTree.Valid (fs : FS) (dirs : List String) : String → IncTree → Prop
+  | nil (base : String) : IncTree.Valid fs dirs base .nil
+  | line (base : String) (raw : List Char) (rest : IncTree) :
+      IsPlainLine raw → IncTree.Valid fs dirs base rest → IncTree.Valid fs dirs base (.line raw rest)
+  | inc (base : String) (raw : List Char) (sub rest : IncTree) (rel incPath : String) (bs : List Nat)
+      (src : List Char) :
+      IsIncludeLine raw rel → pathOk rel = true →
+      lookupPath fs rel (dirs ++ [base]) = some incPath → fs.isDirAt incPath = false →
+      fs.readAt incPath = some bs → bytesToText bs = some src → splitLines src = sub.lines →
+      IncTree.Valid fs dirs (baseOf incPath) sub → IncTree.Valid fs dirs base rest →
+      IncTree.Valid fs dirs base (.inc raw sub rest)
+
+theorem plainContents_append (a b : List (List Char)) :
+    plainContents (a ++ b) = plainContents a ++ plainContents b := by
+  induction a with
+  | nil => rfl
+  | cons x a ih => simp [plainContents, ih]
+
+/-- the flat text of a valid tree has no include / include_bytes lines left -/
+theorem IncTree.Valid.flat_plain {fs : FS} {dirs : List String} {base : String} {t : IncTree}
+    (h : IncTree.Valid fs dirs base t) : ∀ l ∈ t.flat, IsPlainLine l := by
+  induction h with
+  | nil => intro l hl; simp [IncTree.flat] at hl
+  | line base raw rest hp _ ih =>
+    intro l hl
+    simp only [IncTree.flat, List.mem_cons] at hl
+    rcases hl with rfl | hl
+    · exact hp
+    · exact ih l hl
+  | inc base raw sub rest rel incPath bs src _ _ _ _ _ _ _ _ _ ih1 ih2 =>
+    intro l hl
+    simp only [IncTree.flat, List.mem_append] at hl
+    rcases hl with hl | hl
+    · exact ih1 l hl
+    · exact ih2 l hl
+
+/-- the loop of `read_lines` over the lines of a valid tree returns the non-blank lines of the
+    splice, whatever the file name and numbering, provided the fuel covers the depth -/
+theorem go_tree (fs : FS) (dirs : List String) {base : String} {t : IncTree}
+    (h : IncTree.Valid fs dirs base t) :
+    ∀ (fuel : Nat) (path : String) (n : Nat), t.depth ≤ fuel →
+      contentsOf (readLinesAux.go fs dirs fuel path (dirs ++ [base]) n t.lines) =
+        some (plainContents t.flat) := by
+  induction h with
+  | nil base => intro fuel path n _; simp [IncTree.lines, IncTree.flat, go_nil, contentsOf, plainContents]
+  | line base raw rest hp _ ih =>
+    intro fuel path n hd
+    simp only [IncTree.lines, IncTree.flat]
+    rw [go_cons, contentsOf_seq, contentsOf_lineHead_plain _ _ _ _ _ _ _ hp,
+      ih fuel path (n + 1) (by simpa [IncTree.depth] using hd)]
+    simp [optSeq, plainContents]
+  | inc base raw sub rest rel incPath bs src hinc hform hlook hdir hread hascii hsrc _ _ ih1 ih2 =>
+    intro fuel path n hd
+    simp only [IncTree.depth] at hd
+    obtain ⟨f, rfl⟩ : ∃ f, fuel = f + 1 := ⟨fuel - 1, by omega⟩
+    simp only [IncTree.lines, IncTree.flat]
+    rw [go_cons, contentsOf_seq,
+      lineHead_include fs dirs (f + 1) path _ n raw rel incPath bs src hinc hform hlook hdir hread hascii,
+      readLinesAux.eq_2, hsrc, ih1 f incPath 1 (by omega), ih2 (f + 1) path (n + 1) (by omega),
+      plainContents_append]
+    rfl
+
+/-- **include is textual splicing, at any depth.**  `source` is a text whose lines form a valid
+    include tree `t` (relative to `base`, -i directories `dirs`), nested no deeper than the fuel:
+    `read_lines` SUCCEEDS and the contents of the lines it returns are exactly the non-blank lines
+    of `t.flat` — the text obtained by replacing, recursively, every include line by the lines of
+    the file the search finds for it. -/
+theorem include_tree_splice (fs : FS) (dirs : List String) (fuel : Nat) (path base : String)
+    (source : List Char) (t : IncTree)
+    (hsrc : splitLines source = t.lines) (hv : IncTree.Valid fs dirs base t) (hd : t.depth ≤ fuel) :
+    contentsOf (readLinesAux fs dirs (fuel + 1) path base source) = some (plainContents t.flat) := by
+  rw [readLinesAux.eq_2, hsrc]
+  exact go_tree fs dirs hv fuel path 1 hd
+
+/-- … in particular such a read never ends in `unsupported "include depth"` (nor in any other
+    error): fuel exhaustion is impossible for a tree of depth ≤ fuel -/
+theorem include_tree_reads (fs : FS) (dirs : List String) (fuel : Nat) (path base : String)
+    (source : List Char) (t : IncTree)
+    (hsrc : splitLines source = t.lines) (hv : IncTree.Valid fs dirs base t) (hd : t.depth ≤ fuel) :
+    ∃ ls, readLinesAux fs dirs (fuel + 1) path base source = .ok ls ∧
+      ls.map (·.contents) = plainContents t.flat := by
+  have h := include_tree_splice fs dirs fuel path base source t hsrc hv hd
+  cases hr : readLinesAux fs dirs (fuel + 1) path base source with
+  | error e => rw [hr] at h; simp [contentsOf] at h
+  | ok ls => rw [hr] at h; simp only [contentsOf, Option.some.injEq] at h; exact ⟨ls, rfl, h⟩
+
+/-- the flat text on its own reads to the same contents (it has no include lines; any fuel ≥ 1,
+    any directory) -/
+theorem flat_reads (fs : FS) (dirs : List String) (fuel : Nat) (path base base' : String)
+    (flatSrc : List Char) (t : IncTree)
+    (hflat : splitLines flatSrc = t.flat) (hv : IncTree.Valid fs dirs base t) :
+    contentsOf (readLinesAux fs dirs (fuel + 1) path base' flatSrc) = some (plainContents t.flat) := by
+  rw [readLinesAux.eq_2, hflat]
+  exact contentsOf_go_plain _ _ _ _ _ _ hv.flat_plain 1
+
+/-- **C14, splice clause, any depth**: the program A whose includes form the valid tree `t` (nested
+    no deeper than the number of files + 1, the fuel `assemble` runs with) and the program B that is
+    the spliced text `t.flat` assemble to the same bytes, labels and constants, or both fail — and the
+    failure is then not one of reading (`include_tree_reads`). -/
+theorem include_tree_same_result (fs : FS) (cwd : String) (dirs : List String) (c : Bool) (A B : String)
+    (t : IncTree)
+    (hcwd : normAbs cwd = true) (hdirs : dirs.all absOk = true)
+    (hasciiA : A.toList.all (fun c => c.toNat < 128) = true)
+    (hasciiB : B.toList.all (fun c => c.toNat < 128) = true)
+    (hA : splitLines A.toList = t.lines) (hB : splitLines B.toList = t.flat)
+    (hv : IncTree.Valid fs dirs cwd t) (hd : t.depth ≤ fs.files.length + 1) :
+    resultOf (assembleText fs cwd dirs c (.source A)) = resultOf (assembleText fs cwd dirs c (.source B)) := by
+  rw [resultOf_assembleText, resultOf_assembleText,
+    frontEnd_source fs cwd dirs A hcwd hdirs hasciiA, frontEnd_source fs cwd dirs B hcwd hdirs hasciiB,
+    erasedItems_bind_of_contents _ _
+      ((include_tree_splice fs dirs (fs.files.length + 1) "<string>" cwd A.toList t hA hv hd).trans
+        (flat_reads fs dirs (fs.files.length + 1) "<string>" cwd cwd B.toList t hB hv).symm)]
+
 /-! ### non-vacuity: a concrete two-file filesystem in which the include is spliced -/
 
 def exFS : FS :=
@@ -286,5 +455,77 @@ example (fuel : Nat) :
 example : lookupPath repoFS "./blob.bin" ([] ++ ["/r/bronzebeard/definitions"]) =
       some "/r/bronzebeard/definitions/./blob.bin" ∧
     repoFS.readAt "/r/bronzebeard/definitions/./blob.bin" = some [1, 2, 3, 4] := by decide
+
+/-! ### a depth-2 instance: main includes f.asm, which includes g.asm -/
+
+def deepFS : FS :=
+  { files := [("/p/f.asm", "include g.asm\naddi x2, x2, 2\n".toList.map Char.toNat),
+              ("/p/g.asm", "addi x3, x3, 3\n".toList.map Char.toNat)],
+    dirs := ["/", "/p"] }
+
+/-- `include f.asm` → (`include g.asm` → `addi x3, x3, 3`) , `addi x2, x2, 2` -/
+def deepTree : IncTree :=
+  .inc "include f.asm".toList
+    (.inc "include g.asm".toList (.line "addi x3, x3, 3".toList .nil) (.line "addi x2, x2, 2".toList .nil))
+    .nil
+
+theorem deepTree_valid : IncTree.Valid deepFS [] "/p" deepTree := by
+  refine .inc "/p" _ _ _ "f.asm" "/p/f.asm" ("include g.asm\naddi x2, x2, 2\n".toList.map Char.toNat)
+    "include g.asm\naddi x2, x2, 2\n".toList
+    ⟨by decide, "include".toList, "f.asm".toList, by decide, by decide⟩ (by decide) (by decide) (by decide)
+    (by decide) (by decide) (by decide) ?_ (.nil _)
+  have hb : baseOf "/p/f.asm" = "/p" := by decide
+  rw [hb]
+  refine .inc "/p" _ _ _ "g.asm" "/p/g.asm" ("addi x3, x3, 3\n".toList.map Char.toNat) "addi x3, x3, 3\n".toList
+    ⟨by decide, "include".toList, "g.asm".toList, by decide, by decide⟩ (by decide) (by decide) (by decide)
+    (by decide) (by decide) (by decide) ?_ ?_
+  · exact .line _ _ _ ⟨by decide, by decide⟩ (.nil _)
+  · exact .line _ _ _ ⟨by decide, by decide⟩ (.nil _)
+
+/-- the splice of the tree is the flat two-line program … -/
+example : deepTree.flat = ["addi x3, x3, 3".toList, "addi x2, x2, 2".toList] ∧ deepTree.depth = 2 := by decide
+
+theorem deep_abs : normAbs "/p" = true := by
+  have h : ("/p".splitOn "/") = ["", "p"] := by
+    simp [String.splitOn]
+    repeat (rw [String.splitOnAux.eq_1]; simp (decide := true))
+  unfold normAbs; simp only [h]; decide
+
+/-- … and `include_tree_same_result` applies to it (its hypotheses are satisfiable at depth 2) -/
+theorem deep_same (c : Bool) :
+    resultOf (assembleText deepFS "/p" [] c (.source "include f.asm\n")) =
+      resultOf (assembleText deepFS "/p" [] c (.source "addi x3, x3, 3\naddi x2, x2, 2\n")) :=
+  include_tree_same_result deepFS "/p" [] c _ _ deepTree deep_abs (by decide) (by decide) (by decide)
+    (by decide) (by decide) deepTree_valid (by decide)
+
+/-- … both sides being this success, not "both fail" -/
+example : resultOf (assembleText deepFS "/p" [] false (.source "addi x3, x3, 3\naddi x2, x2, 2\n")) =
+    some { bytes := [147, 129, 49, 0, 19, 1, 33, 0], labels := [], constants := [] } := by
+  unfold assembleText frontEnd
+  have h1 : sourceOk "addi x3, x3, 3\naddi x2, x2, 2\n".toList = true := by decide
+  have hs : splitLines "addi x3, x3, 3\naddi x2, x2, 2\n".toList =
+      ["addi x3, x3, 3".toList, "addi x2, x2, 2".toList] := by decide
+  simp only [deep_abs, List.all_nil, h1, readLinesAux.eq_2, hs]
+  simp only [readLinesAux.go.eq_2, readLinesAux.go.eq_1]
+  decide +kernel
+
+/-- a file that includes itself has NO valid tree of any depth the fuel covers: the read ends in
+    `unsupported "include depth"` (outside the model), which `include_tree_reads` excludes for trees -/
+example : readLinesAux ⟨[("/p/f.asm", "include f.asm\n".toList.map Char.toNat)], ["/", "/p"]⟩ [] 3
+    "<string>" "/p" "include f.asm\n".toList = .error (.unsupported "include depth") := by
+  have hs : splitLines "include f.asm\n".toList = ["include f.asm".toList] := by decide
+  have hb : baseOf "/p/f.asm" = "/p" := by decide
+  have hl : lookupPath ⟨[("/p/f.asm", "include f.asm\n".toList.map Char.toNat)], ["/", "/p"]⟩ "f.asm" ([] ++ ["/p"]) =
+      some "/p/f.asm" := by decide
+  have step : ∀ fuel path, readLinesAux ⟨[("/p/f.asm", "include f.asm\n".toList.map Char.toNat)], ["/", "/p"]⟩ []
+      (fuel + 1) path "/p" "include f.asm\n".toList =
+      readLinesAux ⟨[("/p/f.asm", "include f.asm\n".toList.map Char.toNat)], ["/", "/p"]⟩ [] fuel "/p/f.asm" "/p"
+        "include f.asm\n".toList := by
+    intro fuel path
+    rw [readLinesAux.eq_2, hs, go_cons, go_nil, seqLines_nil_right,
+      lineHead_include _ [] fuel path _ 1 _ "f.asm" "/p/f.asm" ("include f.asm\n".toList.map Char.toNat)
+        "include f.asm\n".toList ⟨by decide, "include".toList, "f.asm".toList, by decide, by decide⟩
+        (by decide) hl (by decide) (by decide) (by decide), hb]
+  rw [step, step, step, readLinesAux.eq_1]
 
 end BB.Props.C14
